@@ -622,7 +622,17 @@ def build(node, reg, bg=False, mv=True, anc=(), fixes=frozenset()):
     root down to here implements move_cursor_to_coords; anc: kinds of the ancestors."""
     w = _build(node, reg, bg, mv, anc, fixes)
     if reg is not None and node["k"] not in LEAF_W:
+        cid = len(reg.conts)
         reg.conts.append({"w": w, "node": node})
+
+        # the rows of the canvas this widget returns are logged (fit precondition of the widgets that are no
+        # leaves, Harness.hosts_fit); the widget itself is the plain urwid class
+        def render(size, focus=False, _inner=w.render, _cid=cid, _log=reg.log):
+            canv = _inner(size, focus)
+            _log.append(("crender", _cid, len(size), canv.cols(), canv.rows()))
+            return canv
+
+        w.render = render
     return w
 
 
@@ -949,7 +959,43 @@ class Harness:
                     continue
                 unfit("discard:unfit:" + bad)
             sizes[pid] = size
+        if not self.hosts_fit(reg):
+            unfit("discard:unfit:flow-widget-taller-than-its-box-parent-has-rows")
         return canv, grid, rects, sizes
+
+    @staticmethod
+    def hosts_fit(reg):
+        """the fit precondition for the widgets that are no leaves: "every widget on the way gets the rows it
+        needs".  A flow widget says what it needs by the rows of the canvas it returns; it can be given less only
+        where a box widget holds it (Filler / Overlay with height 'pack', Frame header and footer, the 'pack'
+        items of a box Pile), and there the holder cuts it (a LineBox loses its border, the Filler scrolls it
+        to the cursor) although every leaf may still be drawn in full.  Rows are taken from the canvases the
+        widgets returned in this drawing; the only geometry used is which children a holder stacks."""
+        rows = {}
+        for e in reg.log:
+            if e[0] == "crender":
+                rows[id(reg.conts[e[1]]["node"])] = e[4]
+            elif e[0] == "render":
+                rows[id(reg.probes[e[1]]["node"])] = e[5]
+        for c in reg.conts:
+            node = c["node"]
+            k, have = node["k"], rows.get(id(node))
+            if have is None:
+                continue  # not rendered in this drawing (scrolled out of a ListBox)
+            kid_rows = [rows.get(id(kid)) for kid in node["kids"]]
+            if k == "filler" and node["height"] == "pack":
+                need = [kid_rows[0], node["top"], node["bottom"]]
+            elif k == "over" and node["height"] == "pack":
+                need = [kid_rows[0], node["mt"], node["mb"]]
+            elif k == "frame":
+                need = [1 if i == int(node["hdr"]) else r for i, r in enumerate(kid_rows)]  # the body: at least a row
+            elif k == "pile" and node["mode"] == "B":
+                need = [r if o[0] == "pack" else (o[1] if o[0] == "given" else 1) for o, r in zip(node["opts"], kid_rows)]
+            else:
+                continue
+            if any(n is None for n in need) or sum(need) > have:
+                return False
+        return True
 
     def draw(self, root, reg, count=True):
         try:
